@@ -371,7 +371,13 @@ func classify(prog string, agrees func(prelude string) bool) string {
 }
 
 func classifyDirect(f *fqInst, prog string, ref Obs) string {
-	return classify(prog, func(prelude string) bool { return f.evalDirect(prelude + prog).Equal(ref) })
+	return classify(prog, func(prelude string) bool {
+		o := f.evalDirect(prelude + prog)
+		if o.End == "timeout" { // loaded machine: once more, patiently
+			o = f.evalDirectT(prelude+prog, longTimeout)
+		}
+		return o.Equal(ref)
+	})
 }
 
 func classifyCLI(prog string, inJSON string, ref string) string {
